@@ -6,6 +6,60 @@ From Coq Require Import List NArith ZArith Bool Permutation.
 From PV Require Import Model.Symbols Proofs.Symbols Proofs.SymbolsSpec.
 Import ListNotations.
 
+(* ---- same collisions as one compile (parts imported one after another on the shared table) ---- *)
+
+(* importing a set of well-formed files, in any order, reports no collision exactly when the set
+   (with everything it imports) contains none: no two files share a name, no name of one is a
+   package of another, no two share an (extendee, tag), no file has one twice *)
+Theorem C16_collision_iff_reported :
+  forall fs T l,
+    wf_universe (closure_list fs) ->
+    run_ops [] (map OImport fs) = (T, l) ->
+    (any_err l = false <-> ~ collides (closure_list fs)).
+Proof. exact collision_iff_reported_lemma. Qed.
+Print Assumptions C16_collision_iff_reported.
+
+(* hence splitting the files into parts, in any order, sharing the table, reports a collision
+   exactly when importing them all together does *)
+Theorem C16_partition_equiv :
+  forall fs parts T1 l1 T2 l2,
+    wf_universe (closure_list fs) -> Permutation (concat parts) fs ->
+    run_ops [] (map OImport fs) = (T1, l1) ->
+    run_ops [] (map OImport (concat parts)) = (T2, l2) ->
+    any_err l2 = any_err l1.
+Proof. exact partition_equiv_lemma. Qed.
+Print Assumptions C16_partition_equiv.
+
+(* without a collision the final table answers every lookup in the same way, whatever the order *)
+Theorem C16_import_commutes :
+  forall fs fs' T1 l1 T2 l2,
+    wf_universe (closure_list fs) -> Permutation fs fs' ->
+    ~ collides (closure_list fs) ->
+    run_ops [] (map OImport fs) = (T1, l1) ->
+    run_ops [] (map OImport fs') = (T2, l2) ->
+    (forall n, lookup T2 n = lookup T1 n) /\ (forall m t, lookup_ext T2 m t = lookup_ext T1 m t).
+Proof. exact import_commutes_lemma. Qed.
+Print Assumptions C16_import_commutes.
+
+(* the hypothesis is decidable by wf_universe_b, which the check evaluates on every generated case *)
+Theorem C16_wf_universe_b_sound : forall U, wf_universe_b U = true -> wf_universe U.
+Proof. exact wf_universe_b_sound. Qed.
+Print Assumptions C16_wf_universe_b_sound.
+
+(* non-vacuity: a well-formed clean set and a well-formed colliding set, both orders *)
+Example C16_nonvacuous_clean :
+  wf_universe (closure_list [xB; xC]) /\ ~ collides (closure_list [xB; xC]) /\
+  any_err (snd (run_ops [] (map OImport [xB; xC]))) = false /\
+  any_err (snd (run_ops [] (map OImport [xC; xB]))) = false.
+Proof. exact nonvacuous_clean. Qed.
+Example C16_nonvacuous_collision :
+  wf_universe (closure_list [xB; xD]) /\ collides (closure_list [xB; xD]) /\
+  any_err (snd (run_ops [] (map OImport [xB; xD]))) = true /\
+  any_err (snd (run_ops [] (map OImport [xD; xB]))) = true.
+Proof. exact nonvacuous_collision. Qed.
+
+(* ---- safe concurrent use ---- *)
+
 (* a goroutine running Lookup reaches its read of the symbols map of node [1] holding no lock *)
 Theorem C16_lock_discipline_refuted :
   exists T opss sched t th,
